@@ -340,7 +340,7 @@ func isIdentityEncoding(b []byte) bool {
 	return true
 }
 
-// identityKeys returns identity public keys obtained in three different ways.
+// identityKeys returns identity public keys obtained in four different ways.
 func identityKeys(g *gen.G, k blsKey) []crypto.PublicKey {
 	out := []crypto.PublicKey{crypto.IdentityBLSPublicKey()}
 	enc := make([]byte, 96)
@@ -356,5 +356,11 @@ func identityKeys(g *gen.G, k blsKey) []crypto.PublicKey {
 		g.Fatalf("AggregateBLSPublicKeys(pk, -pk) failed: %v", err)
 	}
 	out = append(out, agg)
+	// identity obtained by removing a key from itself
+	rem, err := crypto.RemoveBLSPublicKeys(k.pk, []crypto.PublicKey{k.pk})
+	if err != nil {
+		g.Fatalf("RemoveBLSPublicKeys(pk, [pk]) failed: %v", err)
+	}
+	out = append(out, rem)
 	return out
 }
